@@ -184,6 +184,7 @@ type sys struct {
 	commits []commitEvent
 
 	restarts int
+	recrash  int // >=0: arm a second crash at the next restart
 	// Replays the kernel accepted: the height must then be committed with a certificate the node holds.
 	replayAccepted []commitEvent
 
@@ -265,7 +266,7 @@ func newStores(w *world) *stores {
 }
 
 func newSys(w *world) *sys {
-	s := &sys{w: w, st: newStores(w)}
+	s := &sys{w: w, st: newStores(w), recrash: -1}
 	s.start()
 	return s
 }
